@@ -9,7 +9,7 @@ BASELINE_OFF = ("export GOFLAGS=-mod=mod GOPROXY=off GOSUMDB=off GOTOOLCHAIN=loc
                 "for m in $(cat /w/out/gomods.txt); do (cd /repo/$m && go test -mod=mod -json -vet=off -count=1 -timeout 25m ./...); done")
 
 P = {
- "C01": dict(level="exploration", tech="runtime monitor: recording exporter + ticket-clock history oracle (exactly-once, batch bound, exclusivity, quiet-after-shutdown, flush visibility, conservation vs SDK drop counter) over seeded concurrent histories under go -race; queue-capacity family with a gate-parked worker; unbuffered queue (blocking mode); exporters re-read their batch before returning (batch stability while exporting); processor list edited while End walks it (shared spanlist scenario); export failures wrapping context errors",
+ "C01": dict(level="exploration", tech="runtime monitor: recording exporter + ticket-clock history oracle (exactly-once, batch bound, exclusivity, quiet-after-shutdown, flush visibility, conservation vs SDK drop counter) over seeded concurrent histories under go -race; queue-capacity family with a gate-parked worker; unbuffered queue (blocking mode); exporters re-read their batch before returning (batch stability while exporting); processor list edited while End walks it (shared spanlist scenario); export failures wrapping context errors; deadline-flush family (full blocking queue, flush contexts of microseconds)",
              text="Held on every generated concurrent history of End/ForceFlush/Shutdown against the real BatchSpanProcessor with slow/failing/blocking exporters; evidence reports overlaps actually observed. Exploration is the right level: the property quantifies over schedules, which only executions can sample.",
              note="Trusts the Go race detector, the harness' recording exporter and ticket clock; interleavings not produced are not covered."),
  "C02": dict(level="exploration", tech="runtime monitor: interval (linearizability) oracle + conservation ledger over concurrent Add/Collect histories under go -race (pre-built options and metric.WithAttributes over one shared caller-owned slice); porcupine linearizability check of short histories in the thorough tier; cardinality limit spelled as 'no limit' (negative / unparsable)",
